@@ -270,7 +270,7 @@ func (d *driver) miscFr(e ev, c *miscCase, rnd *prg) {
 		case "lex":
 			e["out"] = x.LexicographicallyLargest()
 		case "cmp":
-			y := frFromBig(new(big.Int).Mod(codecValue([]string{"r-1", "0", "r~64", "r~128", "r~192", "rnd"}[c.Rep%6], d, c.Rep+1), modR))
+			y := frFromBig(new(big.Int).Mod(codecValue([]string{"r-1", "0", "r~64", "r~128", "r~192", "rnd", "2^63", "2^64-1", "255", "2^127", "2^128-1", "2^191", "1"}[c.Rep%13], d, c.Rep+1), modR))
 			e["y"] = frReg(&y)
 			e["out"] = x.Cmp(&y)
 		case "bit":
